@@ -159,8 +159,11 @@ def run(ctx):
       if np.allclose(np.asarray(a), np.asarray(b)):
         ctx.violation('rotation:same-for-different-keys', f'two keys give the same rotation for shape {shp}', replay={'shape': shp})
   # leaf-wise on trees
-  tree = {'w': jnp.array(nprng.randn(3, 5), jnp.float32), 'b': {'c': jnp.array(nprng.randn(7), jnp.float32), 'd': jnp.array(nprng.randn(1), jnp.float32)}}
-  for kseed in range(6):
+  leaf = lambda *shape: jnp.array(nprng.randn(*shape), jnp.float32)
+  # every tree structure: nested dicts, a bare array, tuples / lists, a single-leaf container
+  trees = [{'w': leaf(3, 5), 'b': {'c': leaf(7), 'd': leaf(1)}}, leaf(6), (leaf(5), leaf(2, 2)), [leaf(3)], {'only': leaf(9)}, [leaf(4), {'x': leaf(3), 'y': (leaf(2),)}]]
+  for kseed in range(12):
+    tree = trees[kseed % len(trees)]
     key = jax.random.PRNGKey(100 + kseed)
     rt, shapes_t = wh.structured_rotation_pytree(tree, key)
     bk = wh.inverse_structured_rotation_pytree(rt, key, shapes_t)
